@@ -369,12 +369,18 @@ type c20StreamCase struct {
 	// Reuse: one Packet value is re-filled field by field and sent again (its
 	// size is also asked for in between), as a caller that recycles its messages does
 	Reuse bool `json:"reuse,omitempty"`
+	// Other: a second stream of the same process whose packets (large DATA frames)
+	// are received in the middle of this stream's fragmented reads; FreshPool: the
+	// process-wide buffer pool is emptied (two garbage collections) first
+	Other     []int `json:"other,omitempty"` // payload sizes of the other stream's packets
+	FreshPool bool  `json:"fresh_pool,omitempty"`
 }
 
 type fragReader struct {
-	r    io.Reader
-	plan []int
-	i    int
+	r       io.Reader
+	plan    []int
+	i       int
+	between func() // called after every fragment that was handed out
 }
 
 func (f *fragReader) Read(p []byte) (int, error) {
@@ -389,7 +395,11 @@ func (f *fragReader) Read(p []byte) (int, error) {
 	if n == 0 && len(p) > 0 {
 		n = 1
 	}
-	return f.r.Read(p[:n])
+	k, err := f.r.Read(p[:n])
+	if f.between != nil && k > 0 {
+		f.between()
+	}
+	return k, err
 }
 
 func genC20Stream(t *rapid.T) *c20StreamCase {
@@ -415,6 +425,10 @@ func genC20Stream(t *rapid.T) *c20StreamCase {
 		c.Frag = []int{3, 1 << 20}
 	}
 	c.Reuse = rapid.IntRange(0, 3).Draw(t, "reuse") == 0
+	if rapid.IntRange(0, 3).Draw(t, "other") == 0 {
+		c.Other = rapid.SliceOfN(rapid.SampledFrom([]int{10, 32768, 40000, 70000}), 1, 5).Draw(t, "othersizes")
+		c.FreshPool = rapid.Bool().Draw(t, "freshpool")
+	}
 	return c
 }
 
@@ -475,7 +489,46 @@ func c20CheckStream(env *h.Env, c *c20StreamCase) error {
 	if splitsHeader {
 		env.Class("header-split")
 	}
-	rs := util.NewProtoStream(context.Background(), &fragReader{r: bytes.NewReader(wire.Bytes()), plan: c.Frag}, nil)
+	fr := &fragReader{r: bytes.NewReader(wire.Bytes()), plan: c.Frag}
+	// a second, independent stream whose frames are received between the fragments of this one
+	var otherSent, otherGot []*types.Packet
+	if len(c.Other) > 0 {
+		env.Class("two-streams-interleaved")
+		env.NonTrivial()
+		var ow bytes.Buffer
+		os := util.NewProtoStream(context.Background(), nil, &ow)
+		for i, n := range c.Other {
+			p := &types.Packet{Type: types.PACKET_DATA, ID: uint32(i + 1), Data: bytes.Repeat([]byte{byte('A' + i)}, n)}
+			otherSent = append(otherSent, p)
+			if err := os.SendMsg(p); err != nil {
+				return fmt.Errorf("protoStream.SendMsg (second stream): %v", err)
+			}
+		}
+		or := util.NewProtoStream(context.Background(), bytes.NewReader(ow.Bytes()), nil)
+		if c.FreshPool {
+			runtime.GC()
+			runtime.GC()
+		}
+		// the second stream takes its first frame before the first one starts
+		first := &types.Packet{}
+		if err := or.RecvMsg(first); err != nil {
+			return fmt.Errorf("RecvMsg (second stream): %v", err)
+		}
+		otherGot = append(otherGot, first)
+		calls := 0
+		fr.between = func() {
+			calls++
+			if calls%3 != 0 || len(otherGot) >= len(otherSent) {
+				return
+			}
+			p := &types.Packet{}
+			if err := or.RecvMsg(p); err == nil {
+				otherGot = append(otherGot, p)
+			}
+		}
+		defer func() { fr.between = nil }()
+	}
+	rs := util.NewProtoStream(context.Background(), fr, nil)
 	var got []*types.Packet
 	for i := 0; ; i++ {
 		p := &types.Packet{}
@@ -498,6 +551,11 @@ func c20CheckStream(env *h.Env, c *c20StreamCase) error {
 	for i := range sent {
 		if err := packetEq(sent[i], got[i]); err != nil {
 			return fmt.Errorf("packet %d of %d differs after the stream was drained: %v", i, len(sent), err)
+		}
+	}
+	for i := range otherGot {
+		if err := packetEq(otherSent[i], otherGot[i]); err != nil {
+			return fmt.Errorf("second stream: packet %d of %d differs after both streams were read: %v", i, len(otherSent), err)
 		}
 	}
 	return nil
